@@ -182,7 +182,7 @@ func (s *storeRun) do(op Op) {
 				return
 			}
 		}
-		m := s.drv.Send(fmt.Sprintf("new %d %d %d %d %s", op.Mode, op.Metric, op.Dim, op.Quant, hexW([]byte(s.real.Path))))
+		m := s.drv.SendNew(op.Mode, op.Metric, op.Dim, op.Quant, s.real.Path)
 		r := s.real.New(op.Mode, op.Metric, op.Dim, op.Quant)
 		if strings.Fields(m)[0] != r {
 			s.tie(op.K, m, r)
